@@ -85,6 +85,9 @@ static sqfs_s32 lz4_comp_block(sqfs_compressor_t *base, const sqfs_u8 *in,
 	if (ret < 0)
 		return SQFS_ERROR_COMPRESSOR;
 
+	if ((sqfs_u32)ret >= size)
+		return 0;
+
 	return ret;
 }
 
